@@ -4,6 +4,7 @@ Modes
   edges <edges.json> <pix|layout> <out>   replay every TLC-enumerated transition of VtfLayout:
                                           k=ctor per Create, k=access per GetPixel/SetPixel,
                                           k=rt (two variants) per Save
+  (edges of the history family: k=hist per Resave - read, load/look/compute/clear, save, read)
   synth <out>                             files laid out by the harness for every format incl. the
                                           compressed ones, read by VTF.read (k=synth)
   random <out>                            seeded random textures far outside the model bounds (k=rt)
@@ -319,13 +320,23 @@ def strip(v: dict) -> dict:
 def replay_edges(edge_file: str, mode: str, out: hlib.RecWriter, stats: dict) -> None:
     edges = [e for e in json.load(open(edge_file)) if e.get('tag') == 'EDGE']
     key = lambda s: json.dumps(s, sort_keys=True)
-    build_edges = [e for e in edges if e['a']['op'] in ('create', 'resource', 'sheet')]
+    history = any(e['a']['op'] == 'resave' for e in edges)
+    build_ops = ('create', 'resource', 'sheet') + (('save', 'read', 'load', 'look', 'compute', 'clear') if history else ())
+    build_edges = [e for e in edges if e['a']['op'] in build_ops]
     paths = hlib.bfs_paths(build_edges, key)
     seed = hlib.seed()
     for n, e in enumerate(edges):
         a = e['a']
         op = a['op']
         case_seed = seed * 1000003 + n
+        if history:
+            if op == 'resave':
+                path = paths[key(e['s'])]
+                ops = [p for p in path if p['op'] in ('load', 'look', 'compute', 'clear')]
+                rec = hist_record(hist_cfg(path[0]), ops, case_seed, 'edge')
+                out.write(rec)
+                stats['resaves'] = stats.get('resaves', 0) + 1
+            continue
         if op == 'create':
             vtf = make_vtf(a, random.Random(case_seed))
             c = {'w': a['w'], 'h': a['h'], 'frames': a['frames'], 'depth': DEPTH_OF[a['lay']], 'cube': a['lay'] == 'cube',
@@ -392,8 +403,9 @@ def access_record(path: list, case_seed: int, op: str, x: int, y: int) -> dict:
 
 
 # ------------------------------------------------------------------ synthesised files (reader only)
-def synth_file(c: dict) -> bytes:
-    """A VTF laid out by hand from the format description, images zero filled."""
+def synth_file(c: dict, contents: dict | None = None) -> bytes:
+    """A VTF laid out by hand from the format description; images zero filled, or the bytes given
+    per (frame, slice, mipmap)."""
     ind, bits, comp = FMT_INFO[c['fmt']]
     lind, lbits, lcomp = FMT_INFO[c['low']]
 
@@ -403,7 +415,14 @@ def synth_file(c: dict) -> bytes:
     low = bytes(size(lbits, lcomp, c['lw'], c['lh'])) if c['low'] != 'NONE' else b''
     hi = b''
     for m in reversed(range(c['mip'])):
-        hi += bytes(size(bits, comp, max(1, c['w'] >> m), max(1, c['h'] >> m)) * c['frames'] * slices)
+        one = size(bits, comp, max(1, c['w'] >> m), max(1, c['h'] >> m))
+        if contents is None:
+            hi += bytes(one * c['frames'] * slices)
+        else:
+            for f in range(c['frames']):
+                for sl in range(slices):
+                    assert len(contents[f, sl, m]) == one
+                    hi += contents[f, sl, m]
     flags = 0x4000 if c['cube'] else 0
     hsize = 80 + (16 if c['minor'] >= 3 else 0)
     head = b'VTF\0' + struct.pack('<II', 7, c['minor'])
@@ -451,6 +470,117 @@ def synth_cases(out: hlib.RecWriter, stats: dict) -> None:
                                     rec['exc'] = f'{type(exc).__name__}: {exc}'
                                 out.write(rec)
                                 stats['synth'] = stats.get('synth', 0) + 1
+
+
+# ------------------------------------------------------------------ histories of a texture that was read
+def hist_record(c: dict, ops: list, seed: int, src: str) -> dict:
+    """A harness-written file whose mipmaps are unrelated random images is read (all frames lazy),
+    the steps are applied, then it is saved and read again."""
+    rng = random.Random(seed)
+    bits = FMT_INFO[c['fmt']][1]
+    slices = (6 if c['minor'] >= 5 else 7) if c['cube'] else c['depth']
+    contents = {}
+    stored = []
+    for m in range(c['mip']):
+        w, h = max(1, c['w'] >> m), max(1, c['h'] >> m)
+        for f in range(c['frames']):
+            for sl in range(slices):
+                raw = bytes(rng.randrange(256) for _ in range(bits * w * h // 8))
+                contents[f, sl, m] = raw
+                stored.append({'k': [f, sl, m], 'w': w, 'h': h, 'raw': list(raw)})
+    # abstract parameter for known findings: an erased level whose nearest kept ancestor is a level
+    # >= 1 that is still lazy (not loaded) when the texture is saved
+    loaded = [False] * c['mip']
+    kept = [True] * c['mip']
+    for o in ops:
+        if o['op'] == 'load':
+            for m in range(c['mip']):
+                if (o['sel'] == 'top' and m == 0) or (o['sel'] == 'small' and m >= 1) or o['sel'] == 'all':
+                    loaded[m] = True
+        elif o['op'] == 'look':
+            if c['frames'] * slices == 1:      # looking loads one frame only, not the whole level
+                loaded[o['m']] = True
+        elif o['op'] == 'compute':
+            pass        # regenerates erased levels now; their lazy parents are in the same state as at save
+        elif o['op'] == 'clear':
+            for m in range(c['mip']):
+                if m > o['after']:
+                    kept[m], loaded[m] = False, False
+    lazy_parent = False
+    for m in range(1, c['mip']):
+        if not kept[m]:
+            p = max(q for q in range(m) if kept[q])
+            if p >= 1 and not loaded[p]:
+                lazy_parent = True
+    rec = {'k': 'hist', 'c': c, 'ops': ops, 'stored': stored, 'exc': '', 'hdr': {'err': '-'}, 'keys': [], 'pix': [], 'seed': seed,
+           'sig': {'kind': 'hist', 'action': 'resave', 'fmt': c['fmt'], 'src': src, 'minor': c['minor'], 'cube': c['cube'],
+                   'ops': '+'.join(o['op'] for o in ops) or 'none', 'lazy_parent': lazy_parent}}
+    try:
+        vtf = VTF.read(io.BytesIO(synth_file(c, contents)))
+        sl_list = slices_of(vtf)
+        for o in ops:
+            if o['op'] == 'load':
+                for (f, s, m), fr in vtf._frames.items():
+                    if (o['sel'] == 'top' and m == 0) or (o['sel'] == 'small' and m >= 1) or o['sel'] == 'all':
+                        fr.load()
+            elif o['op'] == 'look':
+                tuple(frame_of(vtf, 0, sl_list[0], o['m'])[0, 0])
+            elif o['op'] == 'compute':
+                vtf.compute_mipmaps()
+            elif o['op'] == 'clear':
+                vtf.clear_mipmaps(after=o['after'])
+            else:
+                raise ValueError(o)
+        buf = io.BytesIO()
+        vtf.save(buf)
+        data = buf.getvalue()
+        rec['hdr'] = parse_vtf(data)
+        back = VTF.read(io.BytesIO(data))
+        rec['keys'] = proj_keys(back, True)
+        for row in rec['keys']:
+            f, sl, m, w, h, off = row
+            fr = back._frames[f, CubeSide(sl) if c['cube'] else sl, m]
+            rec['pix'].append({'k': [f, sl, m], 'raw': list(data[off: off + bits * w * h // 8]) if off >= 0 else [], 'out': pixels_of(fr)})
+    except Exception as exc:  # noqa: BLE001 - the outcome is data for the specification
+        rec['exc'] = f'{type(exc).__name__}: {exc}'
+        rec['sig']['exc'] = type(exc).__name__
+    return rec
+
+
+def hist_cfg(a: dict) -> dict:
+    """The file configuration of a model Create action (no thumbnail, consistent mipmap count)."""
+    lv = 1 + min(a['w'].bit_length(), a['h'].bit_length()) - 1
+    return {'w': a['w'], 'h': a['h'], 'frames': a['frames'], 'depth': DEPTH_OF[a['lay']], 'cube': a['lay'] == 'cube', 'fill': 'l0',
+            'minor': a['minor'], 'fmt': a['fmt'], 'low': 'NONE', 'lw': 0, 'lh': 0, 'mip': lv, 'res': [],
+            'sheet': {'has': False, 'ver': 0, 'seqs': []}}
+
+
+def random_hist(out: hlib.RecWriter, rng: random.Random, n_cases: int, stats: dict) -> None:
+    for _ in range(n_cases):
+        a = {'w': rng.choice([1, 2, 4, 8, 16]), 'h': rng.choice([1, 2, 4, 8, 16]), 'frames': rng.choice([1, 1, 2, 3]),
+             'lay': rng.choice(['d1', 'd1', 'd2', 'cube']), 'minor': rng.choice([2, 3, 4, 5]), 'fmt': rng.choice(WRITABLE)}
+        c = hist_cfg(a)
+        if rng.random() < 0.3:
+            c['mip'] = rng.randint(1, c['mip'])          # files need not hold every level
+        ops = []
+        cleared = c['mip']                               # levels >= cleared are erased
+        for _ in range(rng.choice([0, 0, 1, 2, 3, 4])):
+            kind = rng.choice(['load', 'look', 'compute', 'clear'])
+            if kind == 'clear':
+                after = rng.randint(0, max(0, c['mip'] - 1))
+                ops.append({'op': 'clear', 'after': after})
+                cleared = min(cleared, after + 1)
+            elif kind == 'compute':
+                ops.append({'op': 'compute'})
+            elif kind == 'look':
+                ops.append({'op': 'look', 'm': rng.randrange(cleared)})
+            else:
+                sel = rng.choice(['top', 'small', 'all'])
+                if sel != 'top' and cleared < c['mip']:
+                    sel = 'top'
+                ops.append({'op': 'load', 'sel': sel})
+        out.write(hist_record(c, ops, rng.getrandbits(40), 'random'))
+        stats['hist_random'] = stats.get('hist_random', 0) + 1
 
 
 # ------------------------------------------------------------------ random textures outside the bounds
@@ -507,12 +637,15 @@ def main() -> None:
     elif mode == 'random':
         out = hlib.RecWriter(sys.argv[2])
         random_cases(out, random.Random(hlib.seed() * 7919 + 15), 1500 if hlib.tier() == 'thorough' else 200, stats)
+        random_hist(out, random.Random(hlib.seed() * 7919 + 16), 1500 if hlib.tier() == 'thorough' else 300, stats)
     elif mode == 'replay':
         rp = json.load(open(sys.argv[2]))
         rec = rp['record']
         out = hlib.RecWriter(sys.argv[3])
         if rec['k'] == 'rt':
             out.write(variant_record(rec['hist'], rec['seed'], rec['variant'], rec.get('mode') == 'pix', 'replay'))
+        elif rec['k'] == 'hist':
+            out.write(hist_record(rec['c'], rec['ops'], rec['seed'], 'replay'))
         elif rec['k'] == 'access':
             out.write(access_record(rec['hist'], rec['seed'], rec['op'], rec['x'], rec['y']))
         elif rec['k'] == 'ctor':
